@@ -112,7 +112,7 @@ func TestMain(m *testing.M) {
 	if k := os.Getenv("C05_CHILD"); k != "" {
 		os.Exit(firstOp(k))
 	}
-	R.Require("first_operation", "key_buffer_reuse", "keylen_independent_of_package_iv", "key_buffer_wiped_before_first_use", "helper_calls_between_objects", "sbox_sweep_complete", "dst==src", "history>=3", "badkeylen")
+	R.Require("first_operation", "key_buffer_reuse", "keylen_independent_of_package_iv", "key_buffer_wiped_before_first_use", "helper_calls_between_objects", "sbox_sweep_complete", "dst==src", "history>=3", "recovered_misuse_in_history", "badkeylen")
 	R.Assume("ref/rsm4 reproduces both GM/T 0002 vectors (TestRefSelf in setup; single-block vector re-checked here)")
 	hx.Main(m, R)
 }
@@ -257,6 +257,7 @@ func TestC05_History(t *testing.T) {
 		r := rsm4.Must(key)
 		steps := 0
 		inplace := false
+		misused := false
 		var hist []string
 		t.Repeat(map[string]func(*rapid.T){
 			"op": func(t *rapid.T) {
@@ -325,7 +326,32 @@ func TestC05_History(t *testing.T) {
 				steps++
 				hist = append(hist, fmt.Sprintf("%v/%s", dec, layout))
 			},
+			// a call the cipher.Block contract does not allow (source or destination shorter than a block): it may panic - the
+			// caller recovers, as a server does around a request - but whatever it does, the object keeps working afterwards
+			"misuse": func(t *rapid.T) {
+				dec := rapid.Bool().Draw(t, "decrypt")
+				short := rapid.IntRange(0, 15).Draw(t, "shortlen")
+				shortDst := rapid.Bool().Draw(t, "shortdst")
+				src, dst := make([]byte, 16), make([]byte, 16)
+				if shortDst {
+					dst = dst[:short]
+				} else {
+					src = src[:short]
+				}
+				hx.Try(func() {
+					if dec {
+						c.Decrypt(dst, src)
+					} else {
+						c.Encrypt(dst, src)
+					}
+				})
+				misused = true
+				hist = append(hist, fmt.Sprintf("misuse(dec=%v,short=%d,dst=%v)", dec, short, shortDst))
+			},
 		})
+		if misused {
+			R.Class("recovered_misuse_in_history")
+		}
 		cl := []string{}
 		if steps >= 3 {
 			cl = append(cl, "history>=3")
